@@ -379,7 +379,7 @@ func contextBody(cfgs []cfg) func(*engine.X) {
 			expect("context/other-compiler", fmt.Sprintf("the proof is presented to the %s verifier", oc), verr, pan, false)
 		}
 		// statement edits
-		for i, an := range n.altNames {
+		for i, an := range n.altNames() {
 			verr, pan := safeVerify(n, c, verifierCtx().build(), stmtSel{kind: 2, idx: i}, proof)
 			expect("statement/component", "statement edit "+an, verr, pan, false)
 		}
@@ -756,7 +756,7 @@ func TestCheck(t *testing.T) {
 			if n.sigmaLevel == nil && c != fiatshamir.Name {
 				continue // pailliern is its own non-interactive proof
 			}
-			cf := cfg{n: n, c: c, light: true, chunk: max(1, min(96, 2000/u))}
+			cf := cfg{n: n, c: c, light: true, chunk: max(4, min(96, 4000/u))}
 			switch {
 			case c != fiatshamir.Name:
 				// Fischlin-type compilers on Paillier-sized protocols: thorough only, and only where one Fiat-Shamir
